@@ -558,7 +558,8 @@ func RenderGFFSeq(r *fw.Rng, a Annotation, withFasta bool, fastaSeq string) stri
 			}
 			if r.Chance(0.3) {
 				// attributes gofasta does not use, before and/or after the ones it does
-				extra := []string{"gbkey=CDS", "product=" + typ + " product%2C escaped", "Dbxref=GeneID:43740578,UniProt:P0DTC2", "Note=two words", "protein_id=QHD43415.1"}
+				extra := []string{"gbkey=CDS", "product=" + typ + " product%2C escaped", "Dbxref=GeneID:43740578,UniProt:P0DTC2", "Note=two words", "protein_id=QHD43415.1",
+					"gene=alt_" + f.ID, "gene=alt_" + f.ID + ";locus_tag=GU280_gp01", "gene_synonym=" + f.ID}
 				e := extra[r.Intn(len(extra))]
 				if r.Chance(0.5) {
 					attrs = attrs + ";" + e
